@@ -217,7 +217,9 @@ def render_indent(enc):
 
 
 BQUOTES = {"s": "'", "d": '"', "S": "'''", "D": '"""'}
-STRS = {"b": "b'x'", "s": "'x'", "f": "f'x'", "u": "u'x'", "r": "r'x'", "R": "rb'x'", "F": "rf'x'"}
+STRS = {"b": "b'x'", "s": "'x'", "f": "f'x'", "u": "u'x'", "r": "r'x'", "R": "rb'x'", "F": "rf'x'",
+        # empty literals (an empty f-string yields no piece at all: the mixing rule must not depend on pieces)
+        "e": "''", "E": "f''", "B": "b''", "G": 'rf""', "T": "F''''''"}
 
 
 def request_text(req):
@@ -644,7 +646,7 @@ def oracle(req, out):
             return f"unterminated string in {t!r}: rejected as {kind}, expected one of {sorted(kinds)}"
         return None
     if op == "strs":
-        kinds = [c in "bR" for c in ws[1]]
+        kinds = [c in "bRB" for c in ws[1]]
         if any(kinds) and not all(kinds):
             n = len(" ".join(STRS[c] for c in ws[1]))
             return _judge([("Other", [(0, n)])], out, "bytes and text literals mixed: " + ws[1])
@@ -986,7 +988,7 @@ def _violating(req):
         if op == "strlex":
             return spec_strlex(unhex(ws[1]).decode()) is not None
         if op == "strs":
-            k = [c in "bR" for c in ws[1]]
+            k = [c in "bRB" for c in ws[1]]
             return any(k) and not all(k)
         if op == "bytes":
             return any(ord(c) >= 128 for c in unhex(ws[1]).decode())
@@ -1270,7 +1272,7 @@ def streams(ctx):
         site += [f"paren {e} {ctx_args(c)}" for e in all_parens(3)]
     for c in ASPAT_SITES:
         site += [f"aspat {p} {t} {ctx_args(c)}" for p in range(len(PATTERNS)) for t in range(len(TARGETS))]
-    strs = [w for w in words("bsfurRF", 3, 1)]
+    strs = [w for w in words("bsfurRF", 3, 1)] + [w for w in words("bsfeEBGT", 3, 2) if any(c in "eEBGT" for c in w)]
     for c in STRS_SITES:
         site += [f"strs {e} {ctx_args(c)}" for e in strs]
     site += [f"strs {e} {ctx_args(STRS_PATTERN_SITE)}" for e in words("bsurR", 3, 1)]
